@@ -7,6 +7,8 @@ Spec: spec/LBP.tla - membership events as cassandra/cluster.py delivers them (ho
 TLC : exhaustive over the whole reachable state space (histories of any length) for N hosts, invariants
       TypeOK, PlanSane, OnlyLive, FilterNeverYieldsExcluded, DCAwarePartition, AutoLocalIsContactDc,
       ExplicitLocalKept; coverage and witnesses against vacuity.
+      spec/LBPRace.tla: two membership events for two hosts of one datacenter delivered concurrently (one action
+      per critical section); every interleaving replayed with DetSched on the real DCAware policy.
 Bind: spec -> code: every edge of the state graph replayed on real policy + Host objects (populate: every
       order), two plans and all distances checked after the call;  code -> spec: random histories driven on the
       real objects, recorded, validated by TLC against spec/Trace_LBP.tla; the Python and the TLA+ formulation
@@ -240,6 +242,61 @@ def simulate(ctx, tag, n, dcs, pols, fails, num, depth, rounds):
     fails.append(F)
 
 
+def race_domain(ctx):
+    """LBPRace.tla: two concurrent membership events for two hosts of one datacenter; every interleaving of the
+    specification replayed with DetSched on the real DCAwareRoundRobinPolicy (scheduler-aware _hosts_lock)."""
+    cfg = tlc.write_cfg(os.path.join(ctx.scratch, "LBPRace.cfg"), invariants=["TypeOK", "NoEventLost", "BystanderUntouched"], deadlock=False)
+    res, nodes, edges, init = tlc.state_graph("LBPRace", cfg, ctx.scratch, coverage=True, workers=2, heap="1g", timeout=600)
+    ctx.add_tlc(res, "lbp-race")
+    if res.violation:
+        ctx.violation("TLC: invariant %s violated in LBPRace.tla" % res.invariant,
+                      replay={"trace": [s for _, s in res.trace()]}, signature="spec:" + str(res.invariant))
+        return False
+    cov = res.coverage()
+    zero = [a for a in ("T_Want", "T_Apply", "T_Return") if cov.get(a, (0, 0))[1] == 0]
+    if zero:
+        raise tlc.MachineryError("LBPRace.tla actions never taken: %s" % zero)
+    for w in ("Witness_BothAtTheLock", "Witness_TwoAdditions"):
+        wcfg = tlc.write_cfg(os.path.join(ctx.scratch, w + ".cfg"), invariants=[w], deadlock=False)
+        wres = tlc.check_model("LBPRace", wcfg, ctx.scratch, timeout=600, workers=2, heap="1g")
+        if wres.invariant != w:
+            raise tlc.MachineryError("vacuity witness %s was not reached" % w)
+    sched = L.race_schedules(nodes, edges, init)
+    runs, bad = 0, []
+    for nid in sorted(sched):
+        st = nodes[nid]
+        live0 = sorted(int(h) for h in st["live0"])
+        ev = {t: str(st["ev"][t - 1]) for t in (1, 2)}
+        expected = sorted((set(live0) | {t for t in ev if ev[t] == "up"}) - {t for t in ev if ev[t] == "down"})
+        for path in sched[nid]:
+            r = L.run_race(live0, ev, path)
+            runs += 1
+            ctx.evaluations += 1
+            if r["error"] or sorted(r["plan"]) != expected or len(set(r["plan"])) != len(r["plan"]):
+                bad.append((live0, ev, path, r, expected))
+                continue
+            ctx.traces_validated += 1
+            ctx.nontrivial(("race", tuple(live0), ev[1], ev[2], tuple(path)))
+            if runs % 300 == 7:
+                ctx.sample({"live_before": live0, "events": {"h1": ev[1], "h2": ev[2]}, "schedule": path, "plan_afterwards": r["plan"]})
+    ctx.note("race_schedule_runs", runs)
+    if runs < 100:
+        raise tlc.MachineryError("only %d interleavings in the LBPRace.tla graph" % runs)
+    ctx.note("race_failures", len(bad))
+    bad.sort(key=lambda b: (len(b[0]), repr(b[1]), b[2]))
+    for live0, ev, path, r, expected in bad[:MAX_REPORTED_PER_SIGNATURE]:
+        ctx.violation("DCAware: hosts %s live, %s(h1) and %s(h2) delivered concurrently (schedule %s): afterwards the plan is %s%s, "
+                      "the live hosts are %s" % (live0, "on_" + ev[1], "on_" + ev[2], path, r["plan"],
+                                                 (" (%s)" % r["error"]) if r["error"] else "", expected),
+                      replay={"race": {"live0": live0, "ev": {str(k): v for k, v in ev.items()}, "schedule": path, "expected": expected}},
+                      signature="DCAware.concurrent-events:event-lost")
+    # self-test: the verdict depends on the events
+    probe = L.run_race([3], {1: "up", 2: "up"}, [1, 1, 1, 2, 2, 2])
+    if sorted(probe["plan"]) == [3]:
+        raise tlc.MachineryError("binding self-test failed: delivering events does not change the plan")
+    return True
+
+
 def run(ctx):
     L.seed_policy_module(ctx.rng)
     fails = []
@@ -261,6 +318,8 @@ def run(ctx):
             return
         simulate(ctx, "s6", 6, ("A", "B", "C"), policies_for(6), fails, num=400, depth=30, rounds=3)
     ctx.note("constants", consts)
+    if not race_domain(ctx):
+        return
     counts = {}
     for F in fails:
         for k, v in F.report().items():
@@ -275,6 +334,17 @@ def run(ctx):
 
 def replay(ctx, obj):
     L.seed_policy_module(ctx.rng)
+    if "race" in obj:
+        c = obj["race"]
+        r = L.run_race(c["live0"], {int(k): v for k, v in c["ev"].items()}, c["schedule"])
+        print("live %s, events %s, schedule %s: plan afterwards %s (error %s), expected %s" % (c["live0"], c["ev"], c["schedule"], r["plan"],
+                                                                                         r["error"], c["expected"]))
+        if r["error"] or sorted(r["plan"]) != sorted(c["expected"]):
+            ctx.violation("replayed: plan %s, live hosts %s" % (r["plan"], c["expected"]), replay=obj,
+                          signature="DCAware.concurrent-events:event-lost")
+        else:
+            print("no mismatch")
+        return
     pol, n, events = obj["policy"], obj["n"], obj["events"]
     hz, err = L.run_events(pol, n, events)
     print("policy : %s" % L.pol_name(pol))
